@@ -87,14 +87,20 @@ def cases(draw):
     for reg in ALL:
         if reg not in regs and draw(st.booleans()):
             stale[reg] = draw(st.integers(0, 100))
+    # the time register may hold a time-of-day pattern instead of a number
+    pattern = draw(st.sampled_from([None, None, None, None, '12:00', '*:30',
+                                    '1*:*5']))
     return {'mode': mode, 'regs': {k: num(v) for k, v in regs.items()},
-            'stale': {k: num(v) for k, v in stale.items()}, 'chain': chain}
+            'stale': {k: num(v) for k, v in stale.items()}, 'chain': chain,
+            'pattern': pattern}
 
 
 def settings_text(case):
     parts = ['units ' + case['mode']]
     for reg, text in list(case['stale'].items()) + list(case['regs'].items()):
         parts.append('{} {}'.format(reg, text))
+    if case.get('pattern'):
+        parts.append('time at ' + case['pattern'])
     return parts
 
 
@@ -120,9 +126,11 @@ def check_invariance(acc, case):
     transitions = [(a, b) for a, b in zip(modes, modes[1:]) if a != b]
     payload = {'kind': 'invariance', 'case': case}
     _, res_a = run(text_a)
-    events_a = [e for e in res_a.trace if e[0] in ('cmd', 'delay')]
+    events_a = [e for e in res_a.trace if e[0] in ('cmd', 'delay',
+                                                   'wait_until')]
     world, res_b = run(text_b)
-    events_b = [e for e in res_b.trace if e[0] in ('cmd', 'delay')]
+    events_b = [e for e in res_b.trace if e[0] in ('cmd', 'delay',
+                                                   'wait_until')]
     sets_a = [e for e in events_a if e[0] == 'cmd' and e[2] == 'set_color']
     color_a = sets_a[0][3] if sets_a else None
     grey = color_a is not None and (color_a[1] == 0 or color_a[2] == 0)
@@ -131,6 +139,8 @@ def check_invariance(acc, case):
     nontrivial = bool(transitions) and not grey and bool(timed)
     labels = ['invariance'] + sorted({'{}->{}'.format(a, b)
                                       for a, b in transitions})
+    if case.get('pattern'):
+        labels.append('time-register-holds-a-pattern')
     if not transitions:
         labels.append('identity-chain')
     acc.case(key=text_b, nontrivial=nontrivial, labels=labels,
@@ -146,7 +156,8 @@ def check_invariance(acc, case):
     for message in world.lan.protocol_errors[:1]:
         acc.fail('protocol', message + '\n' + text_b, payload)
     def shape(events):
-        return [e[:1] if e[0] == 'delay' else e[:3] for e in events]
+        return [e[:1] if e[0] == 'delay' else e[:2] if e[0] == 'wait_until'
+                else e[:3] for e in events]
     if shape(events_a) != shape(events_b):
         acc.fail('invariance-events',
                  'a units chain changed which requests are made: {} vs {}\n{}'
@@ -156,6 +167,8 @@ def check_invariance(acc, case):
     rgb_steps = sum(1 for a, b in transitions if 'rgb' in (a, b))
     problems = []
     for a, b in zip(events_a, events_b):
+        if a[0] == 'wait_until':
+            continue        # same pattern table: compared by shape()
         if a[0] == 'delay':
             if abs(a[1] - b[1]) > 0.001 + 1e-12:
                 problems.append(('delay', 'pending delay {} became {}'.format(
@@ -196,6 +209,7 @@ def check_invariance(acc, case):
 
 
 def check_rewrite_table(acc, case):
+    case = dict(case, pattern=None)     # numeric registers only here
     target = case['chain'][0]
     source = case['mode']
     fmt = 'printf "' + ' '.join('{' + r + '!r}' for r in ALL) + '"'
